@@ -604,6 +604,12 @@ func (w *World) Livelock(res *simrt.Result) {
 
 // Finish copies scheduler results into the outcome and applies the generic oracles.
 func Finish(o *common.Outcome, res *simrt.Result, w *World) {
+	if res.BudgetHit && o.V != nil {
+		// (the run was cut off: what the unwinding goroutines report while the world is torn
+		// down is no verdict)
+		o.Probe("report_during_teardown_discarded")
+		o.V = nil
+	}
 	o.Steps = res.Steps
 	o.SimTime = res.SimTime
 	o.LogHash = res.LogHash
